@@ -8,9 +8,13 @@ from gen import date as G
 def main():
     chk = common.Check('C18')
     import date_common as D
-    proved = chk.prove('I18n.Props.C18', generated=('date',))
-    problems = ' '.join(chk.lean.problems)
-    driver_ok = os.path.exists(common.driver_path()) and not any('untranslatable' in s for s in chk.lean.translation.values()) \
+    proved = chk.prove('I18n.Props.C18', generated=('date', 'gettextdate'), extra_targets=())
+    problems = ' '.join(p for p in chk.lean.problems if 'translator(gettextdate)' not in p)
+    # the tie by translation: fix_date_format / parse_date regenerated from the current lib/gettext.py and proved equal to the model (Props/C18Tie.lean)
+    tie_ok = common.prove_tie(chk, 'I18n.Props.C18Tie', ('gettextdate',),
+                              'fix_date_format / parse_date regenerated from the current lib/gettext.py (Generated/GettextDate.lean) are no longer proved equal to '
+                              'Date.fix / Date.parseCanon (generated_fix_date_format_eq_model, generated_parse_date_eq_model and the restated headline theorems)')
+    driver_ok = os.path.exists(common.driver_path()) and not any('untranslatable' in s for k, s in chk.lean.translation.items() if k != 'gettextdate') \
         and 'Driver' not in problems and 'I18n.Model' not in problems and 'I18n.Generated' not in problems
     rng = chk.rng
     abbrs = D.abbreviations()
@@ -37,6 +41,8 @@ def main():
             lines = ['date fix %s %s' % (D.hexs(s), 'none' if h is None else D.hexs(h)) for s, h in pairs]
             outs = [D.impl_fix(s, h) for s, h in pairs]
             dis, _ = chk.stream('date-fix-' + name, lines, outs)
+            if tie_ok:      # the same inputs through the definition regenerated from lib/gettext.py
+                chk.stream('date-fix-' + name + '-generated', [l.replace('date fix ', 'date gfix ', 1) for l in lines], outs)
             disagreeing += [pairs[i] for i in dis]
             for (s, h), o in zip(pairs, outs):
                 if o.startswith('ok'):
@@ -47,11 +53,15 @@ def main():
         lines = ['date instant ' + D.hexs(t) for t in texts]
         outs = [D.impl_instant(t) for t in texts]
         chk.stream('date-instant', lines, outs)
+        if tie_ok:
+            chk.stream('date-instant-generated', [l.replace('date instant ', 'date ginstant ', 1) for l in lines], outs)
         # the calendar itself: parse_date (strptime + datetime) against the model over the whole domain of dates
         cal = G.calendar_texts(rng, chk.thorough)
         lines = ['date instant ' + D.hexs(t) for t in cal]
         outs = [D.impl_instant(t) for t in cal]
         dis, _ = chk.stream('date-calendar', lines, outs)
+        if tie_ok:
+            chk.stream('date-calendar-generated', [l.replace('date instant ', 'date ginstant ', 1) for l in lines], outs)
         disagreeing += [(cal[i], None) for i in dis]
     else:
         chk.broken.append({'kind': 'correspondence', 'stream': 'date-*', 'problem': 'driver could not be rebuilt from the regenerated model'})
@@ -148,7 +158,10 @@ def main():
                  'tools/translate/date2lean.py (dumps lib.gettext._timezones, epoch, the white-space class of the running interpreter; pins the regex texts)',
                  'Python re finds a derivation of the dumped sre_parse tree iff one exists (Spec/DateRe.lean semantics); the scanners are proved equal to the trees',
                  'strptime / datetime / aware comparison are modelled (parseCanon, Stamp.minutes), tied by the date-fix-* and date-instant streams',
-                 'the correspondence harness (tools/checks/date_common.py, Driver/Date.lean); misc.utc_now is patched in the harness only'],
+                 'the correspondence harness (tools/checks/date_common.py, Driver/Date.lean); misc.utc_now is patched in the harness only',
+                 'tie by translation + proof: tools/translate/gettextdate2lean.py (over tools/translate/pytr core + objfn) is trusted; the kit Model/DatePy.lean is shared by both sides '
+                 'of the equalities (the scanners standing for _parse_date / _search_for_date_boilerplate, parseCanon standing for strptime, str.strip, the dumped _timezones); '
+                 'fix_date_format and parse_date regenerated from the current lib/gettext.py are PROVED equal to Date.fix / Date.parseCanon (Props/C18Tie.lean) and run against CPython in the *-generated streams'],
         explanation='Proved for all strings s and all hints (Props/C18.lean): fix_canonical, fix_idempotent, fix_preserves, written_unique, '
                     'fix_accepts (completeness), fix_rejects (exact classification of the five outcomes; the assertion never fails; the only '
                     'outcome besides ok / DateSyntaxError / BoilerplateDate is the ValueError for a malformed hint), fix_tool_outcomes, '
@@ -159,7 +172,11 @@ def main():
                     'hints accepted by strptime %z but not of the form +HHMM tripped the length assertion or gave a non-ASCII result. '
                     'OUTSTANDING: nothing stated in the design is missing. Modelled rather than verified: strptime / datetime / comparison of '
                     'aware datetimes (tied by the date-fix-*, date-instant, date-check streams over the calendar boundaries); Python re is trusted to '
-                    'implement the declarative semantics of the dumped sre_parse trees. Details: DESIGN-notes/date.md')
+                    'implement the declarative semantics of the dumped sre_parse trees. '
+                    'TIE BY TRANSLATION (Props/C18Tie.lean): Generated/GettextDate.lean is rewritten from the current lib/gettext.py on every run (fix_date_format, parse_date) and proved '
+                    'equal to the model for all strings and hints, results and exception classes (generated_fix_date_format_eq_model, generated_parse_date_eq_model); fix_canonical, '
+                    'fix_idempotent, fix_preserves, fix_accepts, fix_rejects (also: no AssertionError, no KeyError, the kit never used outside its domain), fix_tool_outcomes, parse_canon_iff are '
+                    'restated about the regenerated definitions (*_generated); check_dates stays hand-modelled (date-check / date-file streams). Details: DESIGN-notes/date.md')
 
 if __name__ == '__main__':
     common.main_wrapper(main)
